@@ -259,6 +259,9 @@ fn const_j<'tcx>(tcx: TyCtxt<'tcx>, c: &mir::ConstOperand<'tcx>) -> J {
     if let Const::Unevaluated(uv, _) = c.const_ {
         if let Some(pr) = uv.promoted {
             v.push(("promoted", J::I(pr.index() as i128)));
+        } else if uv.def.is_local() {
+            // a named constant of this crate: its initialiser is dumped with the constants (`body`)
+            v.push(("const_item", s(def_path(tcx, uv.def))));
         }
     }
     // scalar value
@@ -624,6 +627,35 @@ fn extract<'tcx>(tcx: TyCtxt<'tcx>, krate: &str, kind: &str) -> J {
                             }
                         }
                     }
+                }
+                if tcx.generics_of(did).is_empty() && tcx.generics_of(did).parent.is_none() && did.is_local() && !in_test_cfg(tcx, did) {
+                    // the initialiser (a table of tuples, a struct of function pointers): the body the compiler evaluates
+                    let body: &Body<'tcx> = tcx.mir_for_ctfe(did);
+                    let locals: Vec<J> = body
+                        .local_decls
+                        .iter_enumerated()
+                        .map(|(l, d)| o(vec![("i", J::I(l.index() as i128)), ("ty", s(ty_s(d.ty))), ("name", J::Null)]))
+                        .collect();
+                    let blocks: Vec<J> = body
+                        .basic_blocks
+                        .iter_enumerated()
+                        .map(|(i, bb)| block_j(tcx, did, body, i.index(), bb))
+                        .collect();
+                    let mut proms = Vec::new();
+                    for (pi, pb) in tcx.promoted_mir(did).iter_enumerated() {
+                        let plocals: Vec<J> = pb
+                            .local_decls
+                            .iter_enumerated()
+                            .map(|(l, d)| o(vec![("i", J::I(l.index() as i128)), ("ty", s(ty_s(d.ty))), ("name", J::Null)]))
+                            .collect();
+                        let pblocks: Vec<J> = pb
+                            .basic_blocks
+                            .iter_enumerated()
+                            .map(|(i, bb)| block_j(tcx, did, pb, i.index(), bb))
+                            .collect();
+                        proms.push(o(vec![("i", J::I(pi.index() as i128)), ("locals", J::A(plocals)), ("blocks", J::A(pblocks))]));
+                    }
+                    v.push(("body", o(vec![("locals", J::A(locals)), ("blocks", J::A(blocks)), ("promoted", J::A(proms))])));
                 }
                 consts.push(o(v));
             }
